@@ -25,6 +25,61 @@ type framePlan struct {
 	// the same call yields alone
 	Storm []*common.RFrame `json:"storm,omitempty"`
 	Reps  int              `json:"reps,omitempty"`
+	// Mut: edits applied to the reference encoding of Frame (offset counted from the end when negative; a value above
+	// 255 appends the octet value-256): byte strings no encoder produces. Whatever of them the decoder accepts, a relay
+	// that decodes, re-encodes and decodes again ends up with the same value
+	Mut []mutation `json:"mut,omitempty"`
+}
+
+type mutation struct {
+	At  int `json:"at"`
+	Val int `json:"val"`
+}
+
+// c02RelayMutated: the relay clause on accepted byte strings that are not encodings of anything.
+func c02RelayMutated(p framePlan) *common.Fail {
+	ref, _ := common.RefEncode(p.Frame)
+	b := append([]byte{}, ref...)
+	for _, m := range p.Mut {
+		switch {
+		case m.Val > 255:
+			b = append(b, byte(m.Val-256))
+		case len(b) > 6:
+			at := m.At
+			if at < 0 {
+				at = len(b) + at
+			}
+			at = 6 + ((at%(len(b)-6))+(len(b)-6))%(len(b)-6) // never the header
+			b[at] = byte(m.Val)
+		}
+	}
+	if len(b) >= 6 {
+		b[4], b[5] = byte(len(b)>>8), byte(len(b)) // the header's total length follows the edit
+	}
+	var v1 knxnet.Service
+	if _, err := knxnet.Unpack(append([]byte{}, b...), &v1); err != nil {
+		return nil
+	}
+	pk, ok := v1.(knxnet.ServicePackable)
+	if !ok {
+		return nil
+	}
+	re := knxnet.AllocAndPack(pk)
+	var v2 knxnet.Service
+	if _, err := knxnet.Unpack(re, &v2); err != nil {
+		return common.Failf("relay-reencoding-rejected", "%s/%s: the decoder accepts %x as %s, its re-encoding %x is rejected: %v", p.Kind, p.CemiKind, b, common.Show(v1), re, err)
+	}
+	// "whose reserved bits are zero": the clause is about byte strings the re-encoding reproduces - here: apart from
+	// trailing octets behind what the encoder writes. (Where the re-encoding differs inside, the edit hit bits the
+	// format ignores, e.g. the sequence bits of an unnumbered unit; canonicalising those is not a change of value.)
+	if len(re) > len(b) || len(re) < 6 || !bytes.Equal(re[6:], b[6:len(re)]) {
+		return nil
+	}
+	if !common.SameValue(v1, v2) {
+		return common.Failf("relay-changes-value", "%s/%s: the decoder accepts %x as %s\n its re-encoding %x reproduces those octets (apart from %d trailing ones) but decodes as %s: the decoder reports something the encoder does not carry",
+			p.Kind, p.CemiKind, b, common.Show(v1), re, len(b)-len(re), common.Show(v2))
+	}
+	return nil
 }
 
 // c02Storm: the codec is a set of pure functions - concurrent callers with their own values and buffers do not
@@ -198,6 +253,18 @@ func genFramePlan(rt *rapid.T, cells []cell) framePlan {
 	if rapid.IntRange(0, 2).Draw(rt, "used-destination") == 0 {
 		p.Prev = common.GenFrame(rt, c.kind, c.cemiKind)
 	}
+	if rapid.IntRange(0, 2).Draw(rt, "mutated") == 0 {
+		for i := 0; i < rapid.IntRange(1, 3).Draw(rt, "mutations"); i++ {
+			m := mutation{At: rapid.IntRange(-12, 40).Draw(rt, "mut-at"), Val: rapid.SampledFrom([]int{0, 1, 2, 4, 8, 0x24, 0x7f, 0x80, 0xff}).Draw(rt, "mut-val")}
+			if rapid.IntRange(0, 3).Draw(rt, "append") == 0 {
+				m.Val = 256 + rapid.SampledFrom([]int{0, 1, 4, 8, 0xff}).Draw(rt, "app-val")
+			}
+			if rapid.IntRange(0, 4).Draw(rt, "any-val") == 0 && m.Val < 256 {
+				m.Val = rapid.IntRange(0, 255).Draw(rt, "mut-any")
+			}
+			p.Mut = append(p.Mut, m)
+		}
+	}
 	if rapid.IntRange(0, 99).Draw(rt, "storm") == 0 {
 		for i := 0; i < rapid.IntRange(1, 7).Draw(rt, "storm-frames"); i++ {
 			// mostly the same cell (shared helpers, shared scratch space), sometimes any
@@ -307,6 +374,11 @@ func c02Run(p framePlan) *common.Fail {
 	}
 	if p.Prev != nil {
 		if f := c02Reuse(p); f != nil {
+			return f
+		}
+	}
+	if len(p.Mut) > 0 {
+		if f := c02RelayMutated(p); f != nil {
 			return f
 		}
 	}
